@@ -25,6 +25,7 @@
   clause only.
 -/
 import DfolsVerif.Proofs.Dykstra
+import DfolsVerif.Driver.DykstraDrv
 
 namespace Dfols
 namespace C15
@@ -119,10 +120,31 @@ theorem C15_pbox_fixes_box {α : Type} [LinearOrder α] (x l u : List α) (hlu :
 
   This is NOT a consequence of the stopping rule: `cI < tol` bounds the *movement in the last sweep*,
   and Dykstra's method has no convergence rate (for two sets meeting at a small angle the movement
-  per sweep can be tiny while the distance to the limit is still large).  The check observes the
-  clause on the real code instead: strictly for `tol ≤ 1e-8` and the default `1e-10`, and as the
-  pinned known finding `C15:near-optimal-loose-tol` for user tolerances above `1e-8`.
+  per sweep can be tiny while the distance to the limit is still large).  It is in fact FALSE, also
+  for the default `tol = 1e-10`, `max_iter = 100`: `C15_near_optimal_counterexample_ieee` below.
+  The check observes the clause on the real code instead:
+    * random intersections, `tol ≤ 1e-8` and the default: must hold (signature
+      `C15:near-optimal-tight-tol` if it ever fails);
+    * random intersections, user `tol > 1e-8`: fails regularly — finding `C15:near-optimal-loose-tol`;
+    * a fixed corpus of thin intersections (wedge below, thin lens of two unit balls) at the default
+      tolerance: fails by construction — finding `C15:near-optimal-thin-intersection`.
 -/
+
+/-- **the near-optimality clause is false at the default tolerance** (IEEE doubles, kernel-checked).
+    Wedge `{(x,y) : |y| ≤ 1e-3·x}` (two half-planes, non-empty interior), start `(-2e-3, 0)`.  The
+    projection onto the wedge is the apex `(0,0)` (the start lies in the polar cone of the wedge).
+    Each half-plane is only `2e-6` away from the start, so the first sweep changes the correction
+    vectors by `cI ≈ 1.6e-11 < 1e-10`: the routine stops by its rule after ONE sweep and returns a
+    point still `≈ 2e-3 > 1e-3` from the apex.  (`fOps`, `Proj.half` are the driver's IEEE
+    instantiation of the same `dykstra`; the real `util.dykstra` returns the same point, see the
+    crafted corpus of harness/props/c15.py.) -/
+theorem C15_near_optimal_counterexample_ieee :
+    let Ps : List (DykstraDrv.Vec → DykstraDrv.Vec) :=
+      [(DykstraDrv.Proj.half [-1e-3, 1.0] 0.0).apply, (DykstraDrv.Proj.half [-1e-3, -1.0] 0.0).apply]
+    let r := dykstraFull (DykstraDrv.fOps 2) Ps [-2e-3, 0.0] 100 1e-10
+    r.sweeps = 1 ∧ r.stoppedByRule (DykstraDrv.fOps 2) 1e-10 = true ∧
+      decide (DykstraDrv.norm r.x > 1.9e-3) = true := by
+  decide +kernel
 
 /-! ### non-vacuity -/
 
